@@ -75,6 +75,7 @@ func (w *World) directedPick(en []*simrt.Task, cur *simrt.Task, at time.Time, ad
 			w.T.Force(64, 1, "advance?")
 			w.advanceTo(at, "while-busy")
 			w.Probe("clock-advanced-while-tasks-enabled")
+			w.Fault("task.stall")
 			return nil, true
 		}
 		w.T.Force(64, 0, "advance?")
